@@ -397,6 +397,40 @@ theorem C20_bounds_follow_p0 (bounds : List (String × (Rat × Rat))) (names : L
   intro i h
   simp [fillBounds, h]
 
+/-- generated-table obligation: the local minimiser's default box is applied only to start values inside it (repair of
+F-C20-4; on the pinned tree it was applied to every name without bounds) -/
+theorem C20_default_box_only_if_inside : Gen.localBoxOnlyIfInside = true := rfl
+
+/-- LOCAL BOXES FOLLOW p0 AND NEVER EXCLUDE THE START BY DEFAULT: the i-th box handed to scipy belongs to the i-th entry of
+`p0`; for a name the caller gave no bounds for, the box is the default box if the start value lies in it and NO box
+otherwise — so a start value is outside its box only if the caller's own bounds say so -/
+theorem C20_local_bounds_follow_p0 (bounds : List (String × (Rat × Rat))) (p0 : List (String × Rat)) :
+    (fillBoundsLocal Gen.localBoxOnlyIfInside Gen.defaultBox bounds p0).length = p0.length ∧
+    ∀ (i : Nat) (h : i < p0.length),
+      (bounds.lookup p0[i].1 = none →
+        ∃ lo hi, (fillBoundsLocal Gen.localBoxOnlyIfInside Gen.defaultBox bounds p0)[i]? = some (lo, hi) ∧
+          (∀ x, lo = some x → x ≤ p0[i].2) ∧ (∀ x, hi = some x → p0[i].2 ≤ x)) ∧
+      (∀ b, bounds.lookup p0[i].1 = some b →
+        (fillBoundsLocal Gen.localBoxOnlyIfInside Gen.defaultBox bounds p0)[i]? = some (some b.1, some b.2)) := by
+  refine ⟨by simp [fillBoundsLocal], ?_⟩
+  intro i h
+  constructor
+  · intro hb
+    simp only [fillBoundsLocal, C20_default_box_only_if_inside, List.getElem?_map, List.getElem?_eq_getElem h,
+      Option.map_some, hb, Bool.not_true, Bool.false_or]
+    by_cases hin : (decide (Gen.defaultBox.1 ≤ p0[i].2) && decide (p0[i].2 ≤ Gen.defaultBox.2)) = true
+    · simp only [hin, if_true]
+      simp only [Bool.and_eq_true, decide_eq_true_eq] at hin
+      refine ⟨_, _, rfl, ?_, ?_⟩
+      · intro x hx; cases hx; exact hin.1
+      · intro x hx; cases hx; exact hin.2
+    · simp only [hin, Bool.false_eq_true, if_false]
+      refine ⟨none, none, rfl, ?_, ?_⟩
+      · intro x hx; cases hx
+      · intro x hx; cases hx
+  · intro b hb
+    simp [fillBoundsLocal, List.getElem?_eq_getElem h, hb]
+
 /-- generated-table obligation: the global minimiser hands scipy the same per-name boxes, in the order of `p0`, as the
 local one (`fillBounds Gen.defaultBox`, `C20_bounds_follow_p0`) — on the pinned tree it passed the caller's dict on as
 it was and every global method except basinhopping raised -/
